@@ -32,6 +32,7 @@ import (
 	"github.com/coredhcp/coredhcp/plugins"
 	"github.com/coredhcp/coredhcp/plugins/allocators"
 	"github.com/coredhcp/coredhcp/plugins/allocators/bitmap"
+	"github.com/coredhcp/coredhcp/verifhook"
 )
 
 var log = logger.GetLogger("plugins/prefix")
@@ -143,6 +144,9 @@ func (h *Handler) Handle(req, resp dhcpv6.DHCPv6) (dhcpv6.DHCPv6, bool) {
 		// A possible simple optimization here would be to be able to lock single map values
 		// individually instead of the whole map, since we lock for some amount of time
 		h.Lock()
+		if verifhook.On {
+			verifhook.Point("prefix.locked", &h.Mutex, recordKey(client), iapd.IaId)
+		}
 		knownLeases := h.Records[recordKey(client)]
 		// Bitmap to track which leases are already given in this exchange
 		givenOut := bitset.New(uint(len(knownLeases)))
@@ -235,7 +239,13 @@ func (h *Handler) Handle(req, resp dhcpv6.DHCPv6) (dhcpv6.DHCPv6, bool) {
 		if newLeases != nil {
 			h.Records[recordKey(client)] = newLeases
 		}
+		if verifhook.On {
+			verifhook.Point("prefix.unlocking", &h.Mutex, recordKey(client), iapd.IaId)
+		}
 		h.Unlock()
+		if verifhook.On {
+			verifhook.Point("prefix.unlocked", &h.Mutex, recordKey(client), iapd.IaId)
+		}
 
 		if len(iapdResp.Options.Options) == 0 {
 			log.Debugf("No valid prefix to return for IAID %x", iapd.IaId)
